@@ -27,10 +27,12 @@ Definition w_acc : list item :=
 Definition run (p : list item) : state := exec_list (fun _ => 1%nat) p init_state.
 
 (* Both witnesses were refutations of the coherence property for the unrepaired pass (findings F22,
-   F23); after the two `fix:` commits the model of the repaired pass handles them. *)
+   F23).  The repaired pass emits the copy-in only when the FIRST use of the new buffer reads it (an
+   accumulating output counts as a read): w_order gets no copy-in for %a0 at all (the first writer makes
+   the buffer current), w_acc gets the copy-in for its accumulating output. *)
 Lemma w_order_repaired :
   realize_all w_order =
-    [IAlloc 2; IAlloc 3; IOp 0 [(2, KOut)]; ICopy 2 0; ICopy 0 2; IOp 1 [(2, KIn); (3, KOut)]; ICopy 3 1;
+    [IAlloc 2; IAlloc 3; IOp 0 [(2, KOut)]; IOp 1 [(2, KIn); (3, KOut)]; ICopy 3 1;
      IOp 2 [(2, KOut)]; ICopy 2 0]%nat /\
   trace (run (realize_all w_order)) = trace (run w_order) /\
   (forall b, In b [0; 1]%nat -> memo (run (realize_all w_order)) b = memo (run w_order) b).
